@@ -2,22 +2,32 @@
 // src/name/builder.rs uses beyond prelude/arrayvec.rs (which is not edited).
 pub mod name_builder_std {
     use vstd::prelude::*;
-    use crate::arrayvec::ArrayVec;
+    use crate::arrayvec::{ArrayVec, CapacityError};
 
-    /// Target of rewrite NB1: `ArrayVec[i] = v` (IndexMut through DerefMut to the
-    /// slice; panics when `i >= len`, hence the `requires`).
-    #[verifier::external_body]
-    pub fn vq_av_set<T: Copy, const CAP: usize>(a: &mut ArrayVec<T, CAP>, i: usize, v: T)
-        requires i < old(a)@.len(),
-        ensures final(a)@ == old(a)@.update(i as int, v),
-    { unimplemented!() }
+    /// `ArrayVec: DerefMut<Target = [T]>`: the mutable slice covers exactly the
+    /// `len` initialised elements; writing through it changes elements, never the
+    /// length.  (Used by `self.wire_repr[i] = v`; Verus adds the bounds obligation
+    /// `i < len` itself, which is the real panic condition.)
+    impl<T: Copy, const CAP: usize> core::ops::DerefMut for ArrayVec<T, CAP> {
+        #[verifier::external_body]
+        fn deref_mut(&mut self) -> (r: &mut [T])
+            ensures r@ == old(self)@, final(self)@ == final(r)@,
+        { unimplemented!() }
+    }
 
-    /// Target of rewrite NB2: `<&[T]>.try_into().unwrap()` into an `ArrayVec`
-    /// (`TryFrom<&[T]> for ArrayVec` fails, and the unwrap panics, exactly when the
-    /// slice is longer than CAP).
-    #[verifier::external_body]
-    pub fn vq_av_from_slice<T: Copy, const CAP: usize>(s: &[T]) -> (r: ArrayVec<T, CAP>)
-        requires s@.len() <= CAP,
-        ensures r@ == s@,
-    { unimplemented!() }
+    /// `impl TryFrom<&[T]> for ArrayVec<T, CAP>` (arrayvec 0.7): `Err(CapacityError)`
+    /// exactly when the slice is longer than CAP, else a copy of the slice.
+    impl<'a, T: Copy, const CAP: usize> TryFrom<&'a [T]> for ArrayVec<T, CAP> {
+        type Error = CapacityError;
+        #[verifier::external_body]
+        fn try_from(s: &'a [T]) -> (r: Result<Self, CapacityError>)
+            ensures
+                s@.len() <= CAP ==> r is Ok && r->Ok_0@ == s@,
+                s@.len() > CAP ==> r is Err,
+        { unimplemented!() }
+    }
+}
+// `Result::unwrap` needs `E: Debug` (formatting only; outside verus!).
+impl core::fmt::Debug for crate::arrayvec::CapacityError {
+    fn fmt(&self, _f: &mut core::fmt::Formatter) -> core::fmt::Result { Ok(()) }
 }
